@@ -1,10 +1,11 @@
 """C14 - Config options change exactly what they document; parts (a) max_metadata_size, (b) cumulative_mdat_box_size
-of mp4san.  (Part (c), webpsan's allow_unknown_chunks, belongs to the webp area.)
+of mp4san, and (c) allow_unknown_chunks of webpsan (webp area: `webp ...` case lines).
 
 The oracle is PAIRWISE: every case is re-run by the real implementation under a lattice of limits and of
 cumulative sizes derived from the input itself, and the pairs of implementation outputs are compared as the property
 demands.  The box walker below is plain Python arithmetic over the (sparse) input, independent of the model."""
 import mp4props as P
+import webpgen as W
 from props import _mp4family as fam
 from mp4gen import *
 
@@ -121,11 +122,11 @@ def gen(run):
 
 
 fam.make(globals(), "C14", ["C14"], gen, kinds=True)
-COQ_TARGETS = ["theories/Props/C14.vo"]
+COQ_TARGETS = ["theories/Props/C14.vo", "theories/Props/C14c.vo"]
 REQUIRES = ["From Coq Require Import List NArith ZArith Bool.", "From Coq.Strings Require Import Byte.",
             "From MS Require Import Base.Bytes Base.Outcome Base.Prog Mp4.Header Mp4.Box Mp4.San Mp4.Spec Mp4.LoopProofs Props.C14.",
             "Import ListNotations.", "Open Scope N_scope."]
-COQCHK = ["MS.Props.C14"]
+COQCHK = ["MS.Props.C14", "MS.Props.C14c"]
 THEOREMS = [
     ("C14_limit_monotone", """forall (inp : input) (lenient : bool) (ms : N) (cum : option N) (m1 m2 : N) (fuel : nat),
   m1 <= m2 ->
@@ -160,26 +161,48 @@ THEOREMS = [
   let r := mp4_sanitize {| max_metadata_size := mx; cumulative_mdat_box_size := Some t |} lenient U64MAX' inp fuel in
   let r' := mp4_sanitize {| max_metadata_size := mx; cumulative_mdat_box_size := None |} lenient U64MAX' inp' fuel' in
   r <> OutOfFuel -> r' <> OutOfFuel -> r = r'"""),
+    ("C14_unknown_chunks_only", """forall (lossless : N -> N -> bytes -> res unit) (lenient : bool) (ms : N) (inp : input) (fuel : nat),
+  let off := webp_sanitize lossless false lenient ms inp fuel in
+  let on := webp_sanitize lossless true lenient ms inp fuel in
+  (off = Ok tt -> on = Ok tt)
+  /\\ (is_unsupported_chunk off = false -> on = off)
+  /\\ (on = Ok tt -> off = Ok tt \\/ exists t, off = EParse (UnsupportedChunk t))"""),
+    ("C14_unknown_chunks_only_any_reader", """forall (R : reader) (lossless : N -> N -> bytes -> res unit) (fuel : nat) (s : rst R),
+  run R (webp_prog lossless false fuel) s = run R (webp_prog lossless true fuel) s
+  \\/ exists t s', run R (webp_prog lossless false fuel) s = (EParse (UnsupportedChunk t), s')"""),
+    ("C14_known_chunk_never_out_of_place", """forall (lossless : N -> N -> bytes -> res unit) (lenient : bool) (ms : N) (inp : input) (fuel : nat),
+  webp_sanitize lossless true lenient ms inp fuel = Ok tt ->
+  webp_spec (fun w h b => is_ok (lossless w h b)) true inp = true"""),
 ]
-TRUSTED = fam.TRUSTED_COMMON + ["axioms: none (Print Assumptions of the four theorems = Closed under the global context)"]
+_WREQ = ["From Coq Require Import List NArith Bool.", "From Coq.Strings Require Import Byte.",
+         "From MS Require Import Base.Bytes Base.Outcome Base.Prog Webp.Container Webp.Grammar Webp.ContainerProofsAllow Props.C14c.",
+         "Open Scope N_scope."]
+REQUIRES_FOR = {n: _WREQ for n in ("C14_unknown_chunks_only", "C14_unknown_chunks_only_any_reader", "C14_known_chunk_never_out_of_place")}
+TRUSTED = fam.TRUSTED_COMMON + ["axioms: none (Print Assumptions of every theorem = Closed under the global context)",
+                                "part (c): hand-written model Webp/Container.v and grammar Webp/Grammar.v (see C06), harness/src/webp.rs, ocaml/webp.ml"]
 ASSUMPTIONS = fam.ASSUMPTIONS_COMMON + [
     "(b) is stated on the decoded header through the specification's tiling (Spec.tile reads an until-EOF mdat under Some t as a box of "
     "declared size t); the byte-level corollary (size field 0 replaced by t >= 2) is exercised by the pairwise oracle, not proved",
-    "part (c) (webpsan allow_unknown_chunks) is decided by the webp area",
+    "part (c): the lossless validator is a parameter of the model; in the correspondence batch it is the implementation's own verdict",
 ]
 RULE = ("base inputs: limit/cumulative lattices of mp4props, seed layouts, until-EOF mdat in every position (first/middle/last/before ftyp/twice), "
         "several moov boxes of different payload sizes, until-EOF moov, random rewrite layouts, moov tree mutations (thorough: size pathologies, "
         "truncations, all sequences up to length 3). Each base input is re-run by the implementation under limits {0, s-1, s, s+1 for every "
         "moov payload size s, 2^30, u64::MAX} and cumulative sizes {None, 0, 1, 7, 8, 9, 16, exact, exact+-1, exact+100, u32::MAX} and all "
-        "pairs are compared. Non-trivial = at least 40 bytes present; distinct = distinct case line.")
+        "pairs are compared. Part (c): webp seed files, boundary cases, mutations and all chunk sequences up to length 3 (4 thorough), each run by "
+        "the implementation under both values of allow_unknown_chunks; the pair is compared as the property demands and an accepted input is "
+        "judged by the extracted grammar with the option set. Non-trivial = at least 40 bytes present; distinct = distinct case line.")
 LEVEL_TEXT = ("Theorems C14_limit_monotone (all inputs, readers, limits m1 <= m2, any fuel: same result, or InvalidInput under the smaller "
               "limit with a moov payload size in (m1, m2] in the input) and C14_cumulative_is_declared_size (no until-EOF mdat header => the "
               "option has no effect; two settings with the same specification tiling give the same result; not tiled under Some t => rejected; "
               "the tiling gives an until-EOF mdat the size t) about the hand-written model, from the closed form of the loop; plus the "
               "differential check and a pairwise oracle that re-runs the real implementation under config lattices, including the byte-level "
-              "reading (size field 0 replaced by t) of part (b).")
+              "reading (size field 0 replaced by t) of part (b). Part (c): C14_unknown_chunks_only (for every input, reader kind and fuel: accepted without "
+              "the option => accepted with it; rejected for another reason than UnsupportedChunk => identical result; accepted with it => accepted or "
+              "UnsupportedChunk without it), C14_unknown_chunks_only_any_reader (the same simulation for every Read+Skip behaviour), "
+              "C14_known_chunk_never_out_of_place (accepted with the option => the grammar of C06 holds, whose tail admits only unknown chunks).")
 LEVEL_NOTE = ("Trusted: Coq kernel; hand-written model and its correspondence batch; Spec.v tiling as the reading of 'declared size t'; extraction + "
-              "OCaml driver; Rust harness; the Python top-level box walker of the pairwise oracle. No axioms. Part (c) is not covered here.")
+              "OCaml driver; Rust harness; the Python top-level box walker of the pairwise oracle. No axioms.")
 TECHNIQUE = "Coq proof about a hand-written model + extracted-model/Rust differential check + pairwise implementation oracle over config lattices"
 DESIGN_REF = "DESIGN.md section 7 (C14)"
 
@@ -276,3 +299,117 @@ def oracle(run, pairs):
                 bad.append("cumulative %d -> %s but the same input with that size written into the mdat header -> %s" % (t, a[:50], b_[:50]))
         outs.append((not bad, "; ".join(bad[:3])))
     return outs
+
+
+# ---------------------------------------------------------------------- part (c): webp area
+AREAS = ["mp4", "webp"]
+_mp4 = dict(gen=gen, same=same, classify=classify, nontrivial=nontrivial, oracle=oracle, coq_bool=coq_bool, search=search)
+
+
+def area_of(line):
+    return "webp" if line.startswith("webp ") else "mp4"
+
+
+def _is_webp(line):
+    return line.startswith("webp ")
+
+
+def gen(run):
+    yield from _mp4["gen"](run)
+    quick = run.tier == "quick"
+    run.use_area("webp")
+    raw = []
+    for f in W.valid_files():
+        raw.append((W.case_line("cursor", False, f), "webp-valid-seeds"))
+        for name in (b"UNKN", b"EXIF", b"ANMF", b"VP8 ", b"ALPH"):       # a trailing chunk, unknown or known, after a valid file
+            body = f[12:] + W.mk(name)
+            raw.append((W.case_line("cursor", False, W.riff(body)), "webp-trailing-chunk"))
+            raw.append((W.case_line("strict", False, W.riff(body + W.mk(b"UNKN", odd=True))), "webp-trailing-chunk"))
+    raw += [(l, "webp-" + s_) for l, s_ in W.boundary_cases("cursor")]
+    raw += [(l, "webp-" + s_) for l, s_ in W.mutations(run.rng, 300 if quick else 10000)]
+    flagsets = [0, W.ICCP, W.ALPHA, W.ANIM, W.ANIM | W.ALPHA, W.EXIF | W.XMP]
+    raw += [(l, "webp-" + s_) for l, s_ in W.sequences(3 if quick else 4, flagsets, allows=(False,))]
+    raw += [(l, "webp-" + s_) for l, s_ in W.frame_sequences(2 if quick else 3, [0, W.ALPHA], allows=(False,))]
+    lines = W.with_tables(run, [l for l, _ in raw])
+    run.use_area("mp4")
+    for l, (_, s_) in zip(lines, raw):
+        yield l, s_
+
+
+def same(line, impl, model):
+    if _is_webp(line):
+        return impl.split(" need ")[0] == model.split(" need ")[0]
+    return _mp4["same"](line, impl, model)
+
+
+def classify(line, impl):
+    if _is_webp(line):
+        t = impl.split()
+        return "webp-" + (t[0] if t and t[0] != "err" else ("err-" + t[2].split(":")[0] if len(t) > 2 else "missing"))
+    return _mp4["classify"](line, impl)
+
+
+def nontrivial(line, impl):
+    if _is_webp(line):
+        return W.parse_case(line)["len"] >= 40
+    return _mp4["nontrivial"](line, impl)
+
+
+def coq_bool(line, model_out):
+    return None if _is_webp(line) else _mp4["coq_bool"](line, model_out)
+
+
+def _flip(line):
+    t = line.split(" ")
+    t[2] = "0" if t[2] == "1" else "1"
+    return " ".join(t)
+
+
+def _webp_oracle(run, pairs):
+    run.use_area("webp")
+    other = run.harness(["f%d %s" % (i, _flip(l)) for i, (l, _) in enumerate(pairs)])
+    spec = run.driver(["g%d %s" % (i, (l if l.split(" ")[2] == "1" else _flip(l)).replace("webp ", "wspec ", 1)) for i, (l, _) in enumerate(pairs)])
+    run.use_area("mp4")
+    out = []
+    for i, (l, o) in enumerate(pairs):
+        o2 = other.get("f%d" % i, "missing")
+        off, on = (o, o2) if l.split(" ")[2] == "0" else (o2, o)
+        g = spec.get("g%d" % i, "missing").split(" need ")[0]
+        bad = []
+        if off.startswith(("panic", "timeout", "missing")) or on.startswith(("panic", "timeout", "missing")):
+            bad.append("implementation: off=%s on=%s" % (off, on))
+        else:
+            uns = off.startswith("err parse UnsupportedChunk")
+            if off == "ok" and on != "ok":
+                bad.append("accepted without allow_unknown_chunks but with it: %s" % on)
+            if not uns and on != off:
+                bad.append("without the option: %s (not UnsupportedChunk), with it: %s" % (off, on))
+            if on == "ok" and not (off == "ok" or uns):
+                bad.append("accepted with the option, without it: %s" % off)
+            if on == "ok" and g != "true":
+                bad.append("accepted with the option although the grammar (unknown chunks allowed) says %s: a known chunk out of place?" % g)
+        out.append((not bad, "; ".join(bad)))
+    return out
+
+
+def oracle(run, pairs):
+    wi = [i for i, (l, _) in enumerate(pairs) if _is_webp(l)]
+    mi = [i for i, (l, _) in enumerate(pairs) if not _is_webp(l)]
+    res = [None] * len(pairs)
+    if mi:
+        for i, r in zip(mi, _mp4["oracle"](run, [pairs[i] for i in mi])):
+            res[i] = r
+    if wi:
+        for i, r in zip(wi, _webp_oracle(run, [pairs[i] for i in wi])):
+            res[i] = r
+    return res
+
+
+def search(run, disagreements):
+    yield from _mp4["search"](run, disagreements)
+    run.use_area("webp")
+    raw = [l for l, _ in W.mutations(run.rng, 20000)] + [l for l, _ in W.sequences(4, [0, W.ICCP, W.ALPHA, W.ANIM, W.EXIF | W.XMP], allows=(False,))]
+    lines = W.with_tables(run, raw)
+    run.use_area("mp4")
+    for l in lines:
+        yield l, "webp-search"
